@@ -78,8 +78,14 @@ def mk(kind, labels, rng):
     if kind == "emg":
         from basictdf.tdfEMG import EMG, EMGTrack
         b = EMG(1000, n)
-        for l in labels:
-            b.addSignal(EMGTrack(l, A.frames_array(A.gen_frames(rng, 1, n), 1)[:, 0] if n else np.zeros((0,), dtype="<f4")))
+        # acquisition channels: automatic (ascending), or explicit ones in ANY order (signals are not stored by channel) — and half
+        # of those blocks are then taken through their own encoding (a block decoded from a file somebody else wrote)
+        chans = rng.sample(range(0, 40), len(labels)) if rng.random() < 0.5 else None
+        for j, l in enumerate(labels):
+            tr = EMGTrack(l, A.frames_array(A.gen_frames(rng, 1, n), 1)[:, 0] if n else np.zeros((0,), dtype="<f4"))
+            b.addSignal(tr) if chans is None else b.addSignal(tr, channel=chans[j])
+        if chans is not None and n and rng.random() < 0.5 and all(len(l.encode("cp1252", "ignore")) == len(l) < 256 and "\0" not in l for l in labels):
+            b = EMG._build(io.BytesIO(A.encode(b)), b.format.value)
         return b
     from basictdf.tdfEvents import Event, EventsDataType, TemporalEventsData
     b = TemporalEventsData()
